@@ -74,6 +74,24 @@ class TDnr(typing.TypedDict):
     a: int
     b: typing.NotRequired[str]
 
+@dataclasses.dataclass
+class DCcall:
+    a: int
+    b: str = "x"
+    def __call__(self, *args, **kwargs):
+        return (self.a, args, kwargs)
+
+class TDpart(TD, total=False):
+    c: int
+
+class TDreq(typing.TypedDict, total=False):
+    a: typing.Required[int]
+    b: str
+
+class TDitems(typing.TypedDict):
+    items: int
+    b: str
+
 class PC:
     a: int
     b: str
